@@ -25,6 +25,11 @@ CHECKS = {
    text="TLC enumerates every path shape of <= MaxSegs segments over M L Q C A Z (incl. zero-length closes, sub-paths without their own move, fragments) and every history of reverse / subpath-reverse / integer affine map up to MaxOps, carrying the expected geometry; the real path built from segment objects is driven through the same history and its projected geometry compared (closed sub-paths up to cyclic rotation).",
    note="Trusted: TLC, PathOps.tla, the ~40-line Python projection of a real Path onto the abstraction. Arcs compared through the library's Arc constructor. Two known-finding classes (paths whose sub-paths lack their own move) are reported as KNOWN-FINDING; the well-formed class is fully guarded.",
    design="5/C16"),
+ "C07": dict(
+   technique="TLA+ writer spec PathWrite with the law Interp(Write(p,relative,smooth)) = p model-checked by TLC over PathInterp behaviours (plus adversarial stale-smooth cases and an arc family); each state written by the real d()/str()/Subpath.d() in 9 option pairs, re-parsed and compared with the spec's segments",
+   text="TLC checks the round-trip law on the writer/interpreter design for every behaviour of the bounded model and supplies the cases: behaviours with as-parsed relative/smooth flags, curves that look smooth w.r.t. a no-longer-adjacent curve, every lattice chord x radii (too small / large) x rotation x flags, object-built shapes with sub-paths lacking their own move. The real library writes each in all nine (relative, smooth) modes and in seeded decimal units, re-parses, and must reproduce kinds, count and geometry to 12 significant digits (arc tolerance scaled by the F.6.6 conditioning).",
+   note="Trusted: TLC, PathWrite.tla/PathInterp.tla, unit-equivariance of interpretation, the comparator (~60 lines, incl. F.6.6 Lambda for the arc tolerance). Known finding: 6-digit '%G' radii (pinned by test_svg_example14). Arcs with |sweep| > tau are not written by the library and are not generated.",
+   design="5/C07"),
 }
 NOT_BUILT = "check not built yet (planned: DESIGN.md section 5)"
 
